@@ -148,6 +148,7 @@ def gen_case(rng, tier, g):
                 'table': table, 'history': history,
                 'partial': rng.randint(0, n + 1),
                 'budget': rng.choice([0, 1, 5, 20, 60, 200]),
+                'fluent': rng.random() < 0.15,
                 'drop': rng.choice([1, 1, 2, 5]),
                 'sink': rng.choice(['sim', 'sim', 'memory'])
                 if history != 'sinkfail-full' else 'sim',
@@ -238,7 +239,14 @@ def _to(e, fmt, table, src, args):
         e.tohtml(table, src, **a)
 
 
+_FLUENT = [False]
+
+
 def _tee(e, fmt, table, src, args):
+    if _FLUENT[0]:
+        # table.teecsv(...) instead of petl.teecsv(table, ...)
+        from sim.loader import Fluent
+        e = Fluent(e)
     a = dict(args)
     if fmt == 'html':
         a = _html_args(a)
@@ -254,6 +262,7 @@ def _tee(e, fmt, table, src, args):
 
 
 def _run_tee(e, case, log):
+    _FLUENT[0] = bool(case.get('fluent'))
     fmt, args = case['fmt'], case['args']
     rows = dec_table(case['table'])
     ref_store = SimStore()
